@@ -66,14 +66,18 @@ class Driver {
     this._fail({ died: true, exit: info });
   }
 
-  // first unanswered request gets the blame; the rest are re-sent to a fresh process
+  // first unanswered request gets the blame - after it has been confirmed alone in a fresh process
+  // (a loaded machine must not turn into a verdict); the rest are re-sent to a fresh process
   _fail(obs) {
     if (this.timer) clearTimeout(this.timer);
     this.timer = null;
     const pending = this.queue;
     this.queue = [];
     const head = pending.shift();
-    if (head) head.resolve(Object.assign({ id: head.req.id, diags: [] }, obs));
+    if (head) {
+      if (this.confirming) head.resolve(Object.assign({ id: head.req.id, diags: [] }, obs));
+      else confirmAlone(head.req, obs).then((r) => head.resolve(r));
+    }
     for (const p of pending) this._send(p.req, p.resolve);
   }
 
@@ -102,6 +106,26 @@ class Driver {
       try { p.kill(); } catch (e) {}
     }
   }
+}
+
+// re-run one request alone, in its own process, with a 4x longer cap
+function confirmAlone(req, firstObs) {
+  return new Promise((resolve) => {
+    const proc = spawn(BIN, [], { stdio: ['pipe', 'pipe', 'ignore'] });
+    let buf = '';
+    let done = false;
+    const finish = (r) => { if (done) return; done = true; clearTimeout(t); try { proc.kill('SIGKILL'); } catch (e) {} resolve(r); };
+    const t = setTimeout(() => finish(Object.assign({ id: req.id, diags: [], confirmed: true }, { hang: true, timeout_ms: REQ_TIMEOUT_MS * 4 })), REQ_TIMEOUT_MS * 4);
+    proc.stdout.setEncoding('utf8');
+    proc.stdout.on('data', (c) => {
+      buf += c;
+      const i = buf.indexOf('\n');
+      if (i >= 0) { let r; try { r = JSON.parse(buf.slice(0, i)); } catch (e) { r = { bad_response: buf.slice(0, 200) }; } r.retried_alone = firstObs; finish(r); }
+    });
+    proc.on('exit', (code, signal) => finish(Object.assign({ id: req.id, diags: [], confirmed: true }, { died: true, exit: { code, signal } })));
+    proc.stdin.on('error', () => {});
+    proc.stdin.write(JSON.stringify(req) + '\n');
+  });
 }
 
 module.exports = { Driver, BIN };
